@@ -72,7 +72,7 @@ def run(ctx, alpha, rng, quick, clause='pointwise_independent'):
     missing = sorted(set(range(1, n)) - set(by_len))
     if missing or not set(range(1, n)) <= alpha.lengths:
         raise Machinery('MC_GridLength exported no request whose clip has %r native points' % (missing[:8],))
-    neval, inexact, seen = 0, 0, {}
+    neval, inexact, seen, refused = 0, 0, {}, 0
     try:
         for ki, kind in enumerate(fh.KINDS):
             T = rng.choice(fh.T_VALUES[kind])
@@ -96,10 +96,19 @@ def run(ctx, alpha, rng, quick, clause='pointwise_independent'):
                     except Exception as ex:
                         if isinstance(ex, Machinery) or fh.harness_fault(ex):
                             raise Machinery('length replay failed inside the harness: %r' % (ex,))
+                        if r['ilo'] == 0:
+                            # no native point inside the observation's own range: what the clip keeps beyond it is the
+                            # documented margin, which the statement does not prescribe -- a request REFUSED for want of a
+                            # native point is not judged (GridHistory!HRefuse); the object must serve the next one as before
+                            refused += 1
+                            continue
                         ctx.verdict(clause, False, cls=cls, detail='%s: evaluation raised %s: %s (the full native computation succeeds)'
                                     % (what, type(ex).__name__, ex), vector=vec)
                         h = fh.Holder(alpha, kind, T, mix)
                         neval += 1
+                        continue
+                    if r['ilo'] == 0 and len(res.grid) == 0:
+                        refused += 1                       # (refused with an empty answer instead of an exception)
                         continue
                     lo, hi, gdev, dev, tdev, text = fx.compare(alpha, kind, T, mix, win, res)
                     covers = lo >= 1 and (r['ilo'] == 0 or (lo <= r['ilo'] and r['ihi'] <= hi))
@@ -125,11 +134,11 @@ def run(ctx, alpha, rng, quick, clause='pointwise_independent'):
     if not ctx.has_violations():
         for kind in fh.KINDS:
             gap = sorted(set(range(1, n)) - seen.get(kind, set()))
-            if gap and not inexact:
+            if gap and not inexact and not refused:
                 raise Machinery('vacuous: no %s evaluation computed %r points' % (kind, gap[:8]))
         if fx.not_thin:
             raise Machinery('length fixtures are not optically thin (the exp(-10) cut-off could fire): %r' % (fx.not_thin[:3],))
-    return neval, inexact, fx
+    return neval, inexact, fx, refused
 
 
 def replay_vector(ctx, alpha, vec, clause='pointwise_independent'):
